@@ -6,7 +6,9 @@
       the reader is the peer's (compress iff compress<>0) and is fed the wire cut at the given segment lengths
    HDR <mask01> <rsv> <opcode> <len>      -> header hex
    TOYC <wbits> <full01> <hex> ...        -> compress+flush outputs on one context
-   TOYD <hex> ...                         -> decompress results on one context (OK:<hex> | ERR) *)
+   TOYD <hex> ...                         -> decompress results on one context (OK:<hex> | ERR)
+   LTS <mask01> <compress> <notakeover01> <ev> ...   ev = A/<t> | K/<t>/<op> | W/<t> | R/<t> | P/<op>
+      -> OK|REJ:<index of the first event that is not enabled>;W:<wire hex>;H:<none|idle|comp>;N:<#operations on the wire> *)
 let b01 b = if b then "1" else "0"
 let ev_str = function
   | MText b -> "T:" ^ hex_of_bytes b
@@ -41,6 +43,22 @@ let handle line =
       "O:" ^ b01 (safe_overrides c ops);
       "F:" ^ b01 (all_fit rc w.wo_sent);
       "E:" ^ (match expect_all w.wo_sent with None -> "NONE" | Some l -> evs_str l) ]
+  | "LTS" :: mk :: cmp :: ntk :: evs ->
+    let c = { w_mask = (mk = "1"); w_compress = n_of_s cmp; w_notakeover = (ntk = "1") } in
+    let parse_ev s =
+      match String.split_on_char '/' s with
+      | ["A"; t] -> EAcq (n_of_s t)
+      | ["K"; t; o] -> EComp (n_of_s t, parse_op o)
+      | ["W"; t] -> EWrite (n_of_s t)
+      | ["R"; t] -> ERel (n_of_s t)
+      | ["P"; o] -> EPlain (parse_op o)
+      | _ -> failwith ("bad event " ^ s) in
+    let (st, bad) = toy_crun_trace c (List.map parse_ev evs) in
+    String.concat ";" [
+      (match bad with None -> "OK" | Some i -> "REJ:" ^ string_of_int (int_of_n i));
+      "W:" ^ hex_of_bytes st.c_wire;
+      "H:" ^ (match st.c_lock with None -> "none" | Some (_, HIdle) -> "idle" | Some (_, HComp _) -> "comp");
+      "N:" ^ string_of_int (List.length st.c_order) ]
   | ["HDR"; mk; rsv; op; len] -> hex_of_bytes (encode_header (mk = "1") (n_of_s rsv) (n_of_s op) (n_of_s len))
   | "TOYC" :: wb :: full :: ms ->
     let cx = ref (toy_cinit (n_of_s wb)) in
